@@ -1,2 +1,5 @@
 import SimProc.Model.Env
+import SimProc.Model.Basic
+import SimProc.Model.World
 import SimProc.Proofs.EnvLemmas
+import SimProc.Props.C01
